@@ -92,6 +92,41 @@ pub fn run_e2e(id: &str, cases: &[e2e::Case], rep: &mut Report, sanitize: bool, 
     v
 }
 
+/// model tie for the byte-level codec (`Wire.lean`): the sizes, alignments, field offsets and flag offsets its layout
+/// assigns are the numbers gcc prints from `sizeof` / `_Alignof` / `offsetof` over the generated header (which the
+/// end-to-end run has already compared with rustc's)
+pub fn wire_tie(cases: &[e2e::Case], outs: &[E2eOutcome], rep: &mut Report, label: &dyn Fn(usize) -> String) {
+    let ran: Vec<&E2eOutcome> = outs.iter().filter(|o| o.stage == "run" && !o.transcript.is_empty()).collect();
+    let lines: Vec<String> = ran.iter().map(|o| cases[o.case_idx].sexp().replacen("(c01 ", "(c01wire ", 1)).collect();
+    let model = match crate::model::run_model("C01", &lines) {
+        Ok(m) => m,
+        Err(e) => { rep.disagree("*", "model-driver", "", &e); return; }
+    };
+    for (o, m) in ran.iter().zip(&model) {
+        if m == "bad-case" { rep.disagree(&label(o.case_idx), "wire-model", "", m); continue; }
+        let c_side: std::collections::BTreeMap<String, String> = o.transcript.iter().take_while(|l| *l != "--")
+            .filter(|l| l.starts_with("layout ") || l.starts_with("rs "))
+            .filter_map(|l| { let mut it = l.splitn(3, ' '); let k = format!("{} {}", it.next()?, it.next()?); Some((k, it.next().unwrap_or("").to_string())) }).collect();
+        let mut seen = 0;
+        for frag in m.split(" ;; ").filter(|f| !f.is_empty()) {
+            let mut it = frag.splitn(3, ' ');
+            let key = format!("{} {}", it.next().unwrap_or(""), it.next().unwrap_or(""));
+            let val = it.next().unwrap_or("");
+            if let Some(real) = c_side.get(&key) {
+                seen += 1;
+                rep.count("wire-layout-rows");
+                if real != val {
+                    rep.disagree(&format!("{} {key}", label(o.case_idx)), "wire-layout", real, val);
+                }
+            }
+        }
+        if seen != c_side.len() {
+            let missing: Vec<&String> = c_side.keys().filter(|k| !m.contains(k.as_str())).collect();
+            rep.disagree(&label(o.case_idx), "wire-layout-coverage", &format!("{} rows printed by the C driver", c_side.len()), &format!("{seen} of them modelled; missing {missing:?}"));
+        }
+    }
+}
+
 fn strip_ws(s: &str) -> String {
     s.chars().filter(|c| !c.is_whitespace()).collect()
 }
@@ -223,6 +258,7 @@ pub fn main(args: &[String]) {
         let chunk = &cases[chunk_start..(chunk_start + 40).min(cases.len())];
         let lab2 = |k: usize| lab(chunk_start + k);
         let outs = run_e2e("C01", chunk, &mut rep, false, &lab2);
+        wire_tie(chunk, &outs, &mut rep, &lab2);
         for o in outs {
             rep.oracle_runs += 1;
             rep.count(&format!("e2e:{}", if o.problems.is_empty() { "ok" } else { o.stage.as_str() }));
